@@ -438,11 +438,12 @@ Proof.
   - intros L. rewrite !cnt_map_length. apply (greedy_threshold_count g cands T L Hs Hi Hd).
 Qed.
 
-(* for mcb_ref: minimum total size among all independent families of Horton candidates with as many rings.
+(* for mcb_ref: minimum total size among all independent families of its candidates (Horton candidates and one family of
+   fundamental cycles) with as many rings.
    PARTIAL with respect to "mcb_ref is a minimum cycle basis": Horton's theorem (some minimum cycle basis consists of
    candidates only) is not proved. *)
 Theorem mcb_ref_min_among_candidates g T :
-  incl T (horton_candidates g) -> ~ dependent (map (ring_vec g) T) -> length T = length (mcb_ref g) ->
+  incl T (mcb_candidates g) -> ~ dependent (map (ring_vec g) T) -> length T = length (mcb_ref g) ->
   total_size (mcb_ref g) <= total_size T.
 Proof.
   intros Hi Hd HL. unfold mcb_ref in *. apply greedy_min_weight; [apply sort_by_len_sorted | | exact Hd | exact HL].
@@ -456,7 +457,7 @@ Proof.
 Qed.
 
 (* hence: an sssr output accepted by the checker whose rings are all Horton candidates cannot be smaller than mcb_ref *)
-Corollary accepted_candidates_not_smaller g rs : is_cycle_basis g rs = true -> incl rs (horton_candidates g) ->
+Corollary accepted_candidates_not_smaller g rs : is_cycle_basis g rs = true -> incl rs (mcb_candidates g) ->
   length rs = length (mcb_ref g) -> total_size (mcb_ref g) <= total_size rs.
 Proof. intros H Hi HL. apply mcb_ref_min_among_candidates; [exact Hi | apply (accepted_independent g rs H) | exact HL]. Qed.
 
@@ -464,12 +465,12 @@ Proof. intros H Hi HL. apply mcb_ref_min_among_candidates; [exact Hi | apply (ac
 Definition same_cycle (g : graph) (t c : ring) : Prop := ring_vec g c = ring_vec g t /\ length c = length t.
 
 Theorem mcb_ref_min_among_candidate_cycles g T :
-  (forall t, In t T -> exists c, In c (horton_candidates g) /\ same_cycle g t c) ->
+  (forall t, In t T -> exists c, In c (mcb_candidates g) /\ same_cycle g t c) ->
   ~ dependent (map (ring_vec g) T) -> length T = length (mcb_ref g) ->
   total_size (mcb_ref g) <= total_size T.
 Proof.
   intros Hc Hd HL.
-  assert (Ex : exists T', incl T' (horton_candidates g) /\ map (ring_vec g) T' = map (ring_vec g) T /\ map (@length Z) T' = map (@length Z) T).
+  assert (Ex : exists T', incl T' (mcb_candidates g) /\ map (ring_vec g) T' = map (ring_vec g) T /\ map (@length Z) T' = map (@length Z) T).
   { clear Hd HL. induction T as [|t T IH]; [exists []; repeat split; intros x []|].
     destruct IH as [T' [I1 [I2 I3]]]; [intros u Hu; apply Hc; right; exact Hu|].
     destruct (Hc t (or_introl eq_refl)) as [c [Ic [E1 E2]]]. exists (c :: T'). repeat split.
@@ -493,7 +494,7 @@ Qed.
 (* on the dense 7-atom / 12-bond cage: six independent Horton candidates of total size 28, mcb_ref has total size 21 *)
 Example ex_min_weight :
   let T := [[7;3;1;4;5]; [3;1;4;6;2]; [1;2;6;7;3]; [1;2;5;7;3]; [7;5;4;6]; [5;2;1;3]] in
-  incl T (horton_candidates cage_7_12) /\ ~ dependent (map (ring_vec cage_7_12) T) /\ length T = length (mcb_ref cage_7_12) /\
+  incl T (mcb_candidates cage_7_12) /\ ~ dependent (map (ring_vec cage_7_12) T) /\ length T = length (mcb_ref cage_7_12) /\
   total_size (mcb_ref cage_7_12) = 21 /\ total_size T = 28.
 Proof.
   cbv zeta. split; [apply incl_b_sound; vm_compute; reflexivity|]. split; [apply independent_b_indep; vm_compute; reflexivity|].
